@@ -1,0 +1,53 @@
+//go:build verif
+
+/*
+ * Verification export (dynamic value threshold as seen by StreamWriter, property C26).
+ * Add-only; compiled only with `-tags verif`.
+ */
+
+package badger
+
+import (
+	"time"
+
+	"github.com/dgraph-io/ristretto/v2/z"
+)
+
+// VerifThresholdSettle waits until the value-threshold listener
+// (vlogThreshold.listenForValueThresholdUpdate) has processed every size list that
+// valueLog.write has sent so far. It sends two EMPTY size lists through the normal
+// vlogThreshold.update path: an empty list changes nothing in the histogram, the listener only
+// recomputes the percentile it computed last; the channel is FIFO and the listener a single
+// goroutine, so once both have been taken off the channel the first one, and with it every
+// earlier list, has been processed completely, and the second recomputes the same value.
+// A pending Clear (dropAll) is waited for first: the listener takes clearCh and valueCh in
+// random order, the empty lists are sent only after the clear request has been taken.
+// Returns false when the channels did not drain within max.
+func (db *DB) VerifThresholdSettle(max time.Duration) bool {
+	deadline := time.Now().Add(max)
+	for len(db.threshold.clearCh) > 0 {
+		if time.Now().After(deadline) {
+			return false
+		}
+		time.Sleep(50 * time.Microsecond)
+	}
+	db.threshold.update(nil)
+	db.threshold.update(nil)
+	for len(db.threshold.valueCh) > 0 {
+		if time.Now().After(deadline) {
+			return false
+		}
+		time.Sleep(50 * time.Microsecond)
+	}
+	return true
+}
+
+// VerifThresholdHistogram returns a copy of the histogram of value sizes behind the dynamic
+// threshold. Call it only after VerifThresholdSettle while no write is running (the listener
+// owns the histogram; when it is idle this is a read of data nobody writes).
+func (db *DB) VerifThresholdHistogram() *z.HistogramData {
+	return db.threshold.vlMetrics.Copy()
+}
+
+// VerifThresholdPercentile is Options.VLogPercentile as the listener uses it.
+func (db *DB) VerifThresholdPercentile() float64 { return db.threshold.percentile }
